@@ -1,0 +1,17 @@
+//go:build !verif
+
+// Package vhook provides named hook points used by external verification
+// tooling. Without the "verif" build tag every function is a no-op.
+package vhook
+
+// Enabled reports whether hooks are compiled in.
+const Enabled = false
+
+// Point marks a named point in the code.
+func Point(name string) {}
+
+// Err returns an injected error for the named point, or nil.
+func Err(name string) error { return nil }
+
+// Event records a named event with a numeric argument.
+func Event(name string, arg int64) {}
